@@ -290,7 +290,9 @@ class Ctx:
 
     def fail(self, signature, what, case, observed=None):
         """a concrete input on which the real implementation violates the property"""
-        if len(self.failures) < 50:
+        # keep the first 50, and beyond that the first failure of every signature not seen yet (a new kind of
+        # violation must never be crowded out by repetitions of a known one)
+        if len(self.failures) < 50 or all(f['signature'] != signature for f in self.failures):
             self.failures.append({'signature': signature, 'what': what, 'case': case, 'observed': observed})
         self.count('oracle-failure:' + signature)
 
